@@ -509,6 +509,9 @@ def normalize_function(fn, resolver=None, list_attrs=frozenset()):
         # drop the now-unused definitions
         new.body = _drop_defs(new.body, {id(single[k]) for k in table})
         changed = True
+    # N15 / N16: a temporary that only carries the returned value
+    ch15 = _return_temps(new)
+    changed |= ch15
     # N6
     counts, single = _binding_counts(new)
     table = {}
@@ -540,6 +543,76 @@ def normalize_function(fn, resolver=None, list_attrs=frozenset()):
         ast.fix_missing_locations(new)
         return new, True
     return fn, False
+
+
+def _return_temps(fn):
+    """N15  t = E; return f(t)            ->  return f(E)          (t read nowhere else)
+       N16  if c: t = A else: t = B; return t  ->  if c: return A else: return B   (likewise)"""
+    changed = [False]
+
+    def loads(name):
+        return sum(1 for n in _walk_scope(fn) if isinstance(n, ast.Name) and n.id == name and isinstance(n.ctx, ast.Load))
+
+    def stores(name):
+        return sum(1 for n in _walk_scope(fn) if isinstance(n, ast.Name) and n.id == name and
+                   isinstance(n.ctx, (ast.Store, ast.Del)))
+
+    def sink(stmts, name):
+        """replace the trailing `name = V` of every path through stmts by `return V`; None if impossible"""
+        if not stmts:
+            return None
+        last = stmts[-1]
+        if isinstance(last, ast.Assign) and len(last.targets) == 1 and isinstance(last.targets[0], ast.Name) and \
+                last.targets[0].id == name:
+            return stmts[:-1] + [ast.copy_location(ast.Return(value=last.value), last)]
+        if isinstance(last, ast.If) and last.orelse:
+            a, b = sink(last.body, name), sink(last.orelse, name)
+            if a is None or b is None:
+                return None
+            return stmts[:-1] + [ast.copy_location(ast.If(test=last.test, body=a, orelse=b), last)]
+        if isinstance(last, ast.Raise):
+            return stmts
+        return None
+
+    def block(stmts):
+        i = 0
+        while i + 1 < len(stmts):
+            s1, s2 = stmts[i], stmts[i + 1]
+            if isinstance(s2, ast.Return) and s2.value is not None:
+                # N15
+                if isinstance(s1, ast.Assign) and len(s1.targets) == 1 and isinstance(s1.targets[0], ast.Name):
+                    t = s1.targets[0].id
+                    uses = [n for n in ast.walk(s2.value) if isinstance(n, ast.Name) and n.id == t]
+                    if len(uses) == 1 and loads(t) == 1 and stores(t) == 1 and \
+                            not any(isinstance(x, (ast.Lambda, ast.ListComp, ast.GeneratorExp, ast.SetComp, ast.DictComp))
+                                    for x in ast.walk(s2.value)):
+                        s2.value = _Subst({t: s1.value}).visit(s2.value)
+                        del stmts[i]
+                        changed[0] = True
+                        continue
+                # N16
+                if isinstance(s2.value, ast.Name) and isinstance(s1, ast.If):
+                    t = s2.value.id
+                    if loads(t) == 1 and t not in _params(fn):
+                        new_if = sink([s1], t)
+                        n_store = sum(1 for n in ast.walk(s1) if isinstance(n, ast.Name) and n.id == t and
+                                      isinstance(n.ctx, ast.Store))
+                        if new_if is not None and stores(t) == n_store:
+                            stmts[i:i + 2] = new_if
+                            changed[0] = True
+                            continue
+            i += 1
+        for s_ in stmts:
+            if isinstance(s_, (ast.FunctionDef, ast.AsyncFunctionDef, ast.ClassDef)):
+                continue
+            for fld in ('body', 'orelse', 'finalbody'):
+                sub = getattr(s_, fld, None)
+                if isinstance(sub, list):
+                    block(sub)
+            for h in getattr(s_, 'handlers', []):
+                block(h.body)
+    block(fn.body)
+    return changed[0]
 
 
 def _params(fn):
